@@ -140,10 +140,10 @@ package tchannel
 // exactly the frame's (single) chunk, whatever its length (including 0).
 //@ func (r *Relayer) updateMutatedCallReqContinueChecksum(f *Frame, cs Checksum)
 //@   requires FrameFull(f) && f.Header.size >= 16 && cs != nil
-//@   modifies cs(cs), elems(f.Payload)
+//@   modifies cs(csbase(cs)), elems(f.Payload)
 //@   label continuation-frame-is-always-restamped
 //@   ensures ChecksumType(ctype(cs)).ChecksumSize() == 4 && f.Header.size - 16 >= 8 && f.Header.size - 16 >= 8 + be16(old(f.Payload), 6) ==>
-//@             cs(cs) == csupd(old(cs(cs)), old(f.Payload[8:8+be16(f.Payload, 6)])) && be32(f.Payload, 2) == cssum(cs(cs))
+//@             cs(csbase(cs)) == csupd(old(cs(csbase(cs))), old(f.Payload[8:8+be16(f.Payload, 6)])) && be32(f.Payload, 2) == cssum(cs(csbase(cs)))
 //@   property C02 C08
 
 // Get's answer is the membership of the id in the item map (live or tombstoned)
